@@ -3,6 +3,49 @@ import CgtModel.Wire
 namespace Cgt.Driver
 open Cgt Cgt.Wire
 
+def parseRule? : String → Option Rule
+  | "SameDay" => some .sameDay
+  | "BedAndBreakfast" => some .bedAndBreakfast
+  | "Section104" => some .section104
+  | _ => none
+
+/-- `L,<ticker>,<selldate>,<rule>,<qty>,<cost>,<gross>,<net>,<gain>,<acq|->` -/
+def parseLegTok? (s : String) : Option (String × Leg) :=
+  match s.splitOn "," with
+  | ["L", tk, sd, rule, q, c, g, n, gn, acq] =>
+    match parseDate? sd, parseRule? rule, parseRat? q, parseRat? c, parseRat? g, parseRat? n, parseRat? gn with
+    | some sd, some rule, some q, some c, some g, some n, some gn =>
+      let acq? : Option (Option Date) := if acq = "-" then some none else (parseDate? acq).map some
+      acq?.map (fun a => (tk, { sellDate := sd, rule := rule, qty := q, cost := c, gross := g, net := n, gain := gn, acq := a }))
+    | _, _, _, _, _, _, _ => none
+  | _ => none
+
+def parseHoldTok? (s : String) : Option (String × Pool) :=
+  match s.splitOn "," with
+  | ["H", tk, q, c] =>
+    match parseRat? q, parseRat? c with
+    | some q, some c => some (tk, ⟨q, c⟩)
+    | _, _ => none
+  | _ => none
+
+def addLegTo (tk : String) (l : Leg) : List TickerResult → List TickerResult
+  | [] => [{ ticker := tk, pool := none, legs := [l] }]
+  | r :: rs => if r.ticker = tk then { r with legs := r.legs ++ [l] } :: rs else r :: addLegTo tk l rs
+
+def addHoldTo (tk : String) (p : Pool) : List TickerResult → List TickerResult
+  | [] => [{ ticker := tk, pool := some p, legs := [] }]
+  | r :: rs => if r.ticker = tk then { r with pool := some p } :: rs else r :: addHoldTo tk p rs
+
+/-- the implementation's matcher output (legs, holdings) and the input lines, for `reportFrom` -/
+def parseMatchOutput (toks : List String) : Option (List TickerResult × List Tx) :=
+  toks.foldl (fun acc tok =>
+    match acc with
+    | none => none
+    | some (rs, txs) =>
+      if tok.startsWith "L," then (parseLegTok? tok).map (fun (tk, l) => (addLegTo tk l rs, txs))
+      else if tok.startsWith "H," then (parseHoldTok? tok).map (fun (tk, p) => (addHoldTo tk p rs, txs))
+      else (parseTx? tok).map (fun t => (rs, txs ++ [t]))) (some ([], []))
+
 def respond (line : String) : String :=
   match line.trimAscii.toString.splitOn " " with
   | "match" :: txs =>
@@ -12,6 +55,10 @@ def respond (line : String) : String :=
       match run bnbWindowDays l with
       | .error e => showMErr l e
       | .ok rs => showMatch rs
+  | "spec" :: txs =>
+    match parseAll parseTx? (txs.filter (· ≠ "")) with
+    | none => "bad-request"
+    | some l => showSpec (Spec.identifyAll bnbWindowDays l)
   | "calc" :: year :: ex :: txs =>
     match parseAll parseTx? (txs.filter (· ≠ "")), parseExemptions? ex with
     | some l, some ex =>
@@ -20,6 +67,17 @@ def respond (line : String) : String :=
       | none => "bad-request"
       | some y =>
         match calculate bnbWindowDays disposalRoundDp ex y l with
+        | .error e => showCalcErr l e
+        | .ok r => showReport r
+    | _, _ => "bad-request"
+  | "report" :: year :: ex :: toks =>
+    match parseMatchOutput (toks.filter (· ≠ "")), parseExemptions? ex with
+    | some (rs, l), some ex =>
+      let y? : Option (Option Int) := if year = "-" then some none else (parseInt? year).map some
+      match y? with
+      | none => "bad-request"
+      | some y =>
+        match reportFrom disposalRoundDp ex y l rs with
         | .error e => showCalcErr l e
         | .ok r => showReport r
     | _, _ => "bad-request"
